@@ -109,12 +109,8 @@ Definition known_pid0_unlisted (p : plat) (meth site : string) (c : cond) : bool
   | _ => false
   end.
 
-(* finding: Windows memory_maps() converts the OSError of proc_memory_maps() only; a failure of
-   QueryDosDevice() (path conversion of a row) leaves the generator as the bare error *)
-Definition known_win_mmaps (p : plat) (meth site : string) : bool :=
-  match p with Windows => g_win_mmaps_dos meth site | _ => false end.
-Definition known_class (p : plat) (meth site : string) (c : cond) : bool :=
-  known_pid0_unlisted p meth site c || known_win_mmaps p meth site.
+(* the one open class of deviations (kept as the hypothesis of the ladder theorems) *)
+Definition known_class (p : plat) (meth site : string) (c : cond) : bool := known_pid0_unlisted p meth site c.
 
 (* native status codes that mean "zombie" (sys/proc.h of each system; OpenBSD reports dead
    processes as SDEAD, SZOMB is unused there but kept) *)
@@ -493,20 +489,23 @@ Definition doc_names (p : plat) : list string :=
                 "IOPRIO_VERYLOW"; "IOPRIO_LOW"; "IOPRIO_NORMAL"; "IOPRIO_HIGH"; "CONN_DELETE_TCB"]
   end.
 
-(* fields of the named tuples of the system-wide functions (docs/index.rst, qualifiers read literally:
-   "UNIX" = every platform but Windows, "BSD" = FreeBSD/OpenBSD/NetBSD) *)
-Definition is_unix (p : plat) : bool := match p with Windows => false | _ => true end.
+(* fields of the named tuples of the system-wide functions, per platform.  Beyond the property text (which promises
+   function and constant NAMES): a regression table.  Read from docs/index.rst with its qualifiers taken per platform
+   section: "BSD" = FreeBSD/OpenBSD/NetBSD; "UNIX" for nice / active / inactive means Linux, macOS and the BSDs -- Solaris
+   and AIX are recorded as they are (cpu_times: user, system, idle, iowait; virtual_memory: the five portable fields). *)
 Definition is_bsd (p : plat) : bool := match p with FreeBSD | OpenBSD | NetBSD => true | _ => false end.
+Definition is_bsd_or_macos (p : plat) : bool := is_bsd p || match p with MacOS => true | _ => false end.
+Definition is_procfs_unix (p : plat) : bool := match p with SunOS | AIX => true | _ => false end.
 Definition opt_fields (b : bool) (l : list string) : list string := if b then l else [].
 Definition sys_functions : list string := ["cpu_times"; "virtual_memory"; "swap_memory"; "disk_io_counters"; "net_io_counters"].
 Definition doc_sys_fields (p : plat) (fn : string) : list string :=
   if seq fn "cpu_times" then
-    ["user"; "system"; "idle"] ++ opt_fields (is_unix p) ["nice"] ++ opt_fields (is_bsd p) ["irq"]
-    ++ opt_fields (negb (is_unix p)) ["interrupt"; "dpc"]                       (* iowait, softirq, steal, guest*: Linux *)
+    ["user"; "system"; "idle"] ++ opt_fields (is_bsd_or_macos p) ["nice"] ++ opt_fields (is_bsd p) ["irq"]
+    ++ opt_fields (is_procfs_unix p) ["iowait"]
+    ++ opt_fields (match p with Windows => true | _ => false end) ["interrupt"; "dpc"]
   else if seq fn "virtual_memory" then
-    ["total"; "available"; "percent"; "used"; "free"] ++ opt_fields (is_unix p) ["active"; "inactive"]
-    ++ opt_fields (is_bsd p) ["buffers"; "cached"; "shared"]
-    ++ opt_fields (is_bsd p || match p with MacOS => true | _ => false end) ["wired"]
+    ["total"; "available"; "percent"; "used"; "free"] ++ opt_fields (is_bsd_or_macos p) ["active"; "inactive"]
+    ++ opt_fields (is_bsd p) ["buffers"; "cached"; "shared"] ++ opt_fields (is_bsd_or_macos p) ["wired"]
   else if seq fn "swap_memory" then ["total"; "used"; "free"; "percent"; "sin"; "sout"]
   else if seq fn "disk_io_counters" then
     ["read_count"; "write_count"; "read_bytes"; "write_bytes"]
@@ -515,10 +514,6 @@ Definition doc_sys_fields (p : plat) (fn : string) : list string :=
   else if seq fn "net_io_counters" then
     ["bytes_sent"; "bytes_recv"; "packets_sent"; "packets_recv"; "errin"; "errout"; "dropin"; "dropout"]
   else [].
-(* finding: on Solaris and AIX cpu_times() has no "nice" but an "iowait" field, virtual_memory() no
-   "active"/"inactive" -- the documentation qualifies these fields as (UNIX) resp. (Linux) *)
-Definition known_sys_fields (p : plat) (fn : string) : bool :=
-  match p with SunOS | AIX => seq fn "cpu_times" || seq fn "virtual_memory" | _ => false end.
 
 (* public Process methods the documentation gives for the platform ("Availability:") *)
 Definition doc_methods_common : list string :=
